@@ -18,7 +18,8 @@ ASSUMPTIONS = ["distinct live objects have distinct UIDs"]
 LEVEL_TEXT = ("Lean 4 theorems over the arbitration model: the minions attached to a master are exactly the stored minions of its host in key "
               "order; a path of a minion is marked valid iff that minion beats every other minion listing the path (so each path is served by "
               "exactly one minion); a VirtualServer's routes are exactly the referenced stored routes that fit (host equal, subroutes under the "
-              "referencing path) followed by the challenge routes of its host; composition is a function of the object set.")
+              "referencing path) followed by the challenge routes of its host; composition is a function of the object set."
+              ' Source tie: the winner comparison, isMaster / isMinion and isRegexOrExactMatch are translated from /repo on every run and proved equal to the model (Props/TieArb.lean).')
 LEVEL_NOTE = "Assurance = weaker of (theorems about the model, correspondence with the real Configuration on generated histories)."
 TECHNIQUE = "Lean 4 proof (path-holder fold = champion; route selection by structural induction) + model/implementation correspondence"
 
